@@ -260,6 +260,10 @@ func (e Engine) Generate(prop, tier string, run int, seed uint64) *kernel.Scenar
 			continue
 		}
 		st := mkStep(r, prop, op, c, nch)
+		if prop == "C11" && op == "create" && r.Bool(0.12) {
+			// fault: the first or the second write of the creation fails
+			st.A["failw"] = int64(1 + r.Intn(2))
+		}
 		if prop == "C11" && op == "close" && r.Bool(0.25) {
 			// fault: the first or the second write of the removal fails
 			st.A["failw"] = int64(1 + r.Intn(2))
